@@ -2,7 +2,12 @@ package scen
 
 import (
 	"fmt"
+	"net/http"
+	"strings"
 	"time"
+
+	"github.com/ipni/go-libipni/dagsync/ipnisync"
+	libp2phttp "github.com/libp2p/go-libp2p/p2p/http"
 
 	"github.com/ipfs/go-cid"
 	"github.com/ipni/go-libipni/dagsync"
@@ -25,7 +30,41 @@ func runC04S(r *simkit.Run, c Cfg) {
 	r.EnableSites(map[string]bool{"hook.call": true, "pub.read": true})
 	nAds := tp.Range(3, 8, "nAds")
 	pre := tp.Choose(nAds, "preSynced")
-	pub := w.NewPublisher(PubOpts{Name: "S", Ident: Identity("S"), NAds: pre, StreamHost: pw.send})
+	// In a sixth of the runs the publisher's protocol document - what a
+	// libp2p-HTTP server answers at /.well-known/libp2p/protocols - reaches
+	// the subscriber damaged at first contact: the IPNI protocol is listed
+	// under a name one character off. For that the publisher's handler is
+	// mounted on a libp2p-HTTP host of the harness's own (the real Publisher
+	// serves the requests; only the protocol listing is under control).
+	damaged := tp.Chance(1, 6, "damagedDiscovery")
+	var pub *PubNode
+	var heal func()
+	if damaged {
+		pre = 0
+		pub = w.NewPublisher(PubOpts{Name: "S", Ident: Identity("S"), NAds: 0, Hosts: []string{"10.9.9.9:3104"}})
+		hh := &libp2phttp.Host{StreamHost: pw.send}
+		handler := http.HandlerFunc(func(rw http.ResponseWriter, rq *http.Request) {
+			rq2 := rq.Clone(rq.Context())
+			rq2.URL.Path = ipnisync.IPNIPath + "/" + strings.TrimPrefix(rq.URL.Path, "/")
+			pub.Pub.ServeHTTP(rw, rq2)
+		})
+		hh.WellKnownHandler.AddProtocolMeta("/ipni/v1/ae", libp2phttp.ProtocolMeta{Path: ipnisync.IPNIPath + "/"})
+		healed := false
+		heal = func() {
+			if healed {
+				return
+			}
+			healed = true
+			hh.WellKnownHandler.RemoveProtocolMeta("/ipni/v1/ae")
+			hh.SetHTTPHandlerAtPath(ipnisync.ProtocolID, ipnisync.IPNIPath+"/", handler)
+		}
+		go hh.Serve()
+		defer hh.Close()
+		pub.Addrs = pw.send.Addrs()
+		r.Fault("protocol-document-damaged-at-first-contact")
+	} else {
+		pub = w.NewPublisher(PubOpts{Name: "S", Ident: Identity("S"), NAds: pre, StreamHost: pw.send})
+	}
 	seg := int64(-1)
 	if tp.Chance(1, 3, "seg") {
 		seg = int64(tp.Range(1, 3, "segV"))
@@ -153,6 +192,12 @@ func runC04S(r *simkit.Run, c Cfg) {
 		r.Violate("c04.audit", "after the faulty attempt over libp2p streams (fired=%v): %v", fired, err)
 	}
 	// heal and retry through the same subscriber
+	if damaged {
+		if res.err == nil {
+			r.Violate("c04.result", "sync over libp2p streams succeeded although the publisher's protocol document does not list the IPNI protocol")
+		}
+		heal()
+	}
 	if kind == 2 {
 		pw.mn.LinkPeers(pw.recv.ID(), pw.send.ID())
 	}
